@@ -167,7 +167,7 @@ def rule_e1(ctx, rule_id: str = "C07-E1") -> None:
                 rule_id,
                 "RSMIDecomposer.decompose:element-key",
                 where,
-                "composition key %s is not injective over the elements: %s" % (unparse(key)[:70], detail),
+                "composition key %s is not a total, injective function of the element: %s" % (unparse(key)[:70], detail),
             )
 
 
@@ -191,6 +191,7 @@ def _injective(ctx, f: Func, key: ast.AST, atom: str) -> Tuple[str, str]:
         return "unknown-form", "key expression is neither atom.GetSymbol() nor a table lookup by atomic number"
     # locate the literal table
     lit = None
+    table_expr = _resolve_expr(f, table_expr)
     d = dotted(table_expr)
     if d:
         parts = d.split(".")
@@ -217,7 +218,13 @@ def _injective(ctx, f: Func, key: ast.AST, atom: str) -> Tuple[str, str]:
     if mode == "index":
         if wrong:
             return "wrong-symbol", "table entries differ from the element symbols: %s" % wrong[:5]
-        return "ok", "table indexed directly (unknown element raises, no silent merge); %d elements covered" % len(covered)
+        if missing:
+            return (
+                "partial-table",
+                "the table is indexed directly and lacks Z=%d..%d (%d elements, e.g. %s): such an atom raises KeyError and the whole batch is lost"
+                % (missing[0], missing[-1], len(missing), SYMBOLS[missing[-1] - 1]),
+            )
+        return "ok", "table indexed directly; all %d elements covered" % len(covered)
     # .get with fallback
     if not missing:
         if wrong:
@@ -701,7 +708,32 @@ def names_in_expr(e: ast.AST):
     return {n.id for n in ast.walk(e) if isinstance(n, ast.Name)}
 
 
+def rule_e8(ctx) -> None:
+    """The composition handed out is the caller's own object: if decompose (or a
+    function of its counting chain) is memoised, no caller anywhere in the package
+    may mutate the dictionary it gets, or later calls see the mutated counts."""
+    from ..shared import SharedFlow
+
+    ctx.rule("C07-E8", "a memoised composition is never mutated by a receiver (memoisation of the decompose chain is otherwise free)", 1)
+    f, hops = locate_counting(ctx)
+    chain = {DECOMPOSE, f.qualname} | {g.qualname for _, _, g in hops}
+    scope = {q for q in ctx.prog.functions if q.startswith("synrbl.")}
+    sf = SharedFlow(ctx, scope)
+    memo = {q: d for q, d in sf.memoised.items() if q in chain}
+    ctx.instance("C07-E8", "memoised functions of the decompose chain: %s" % (sorted(x.split(".")[-1] for x in memo) or "none"), f.loc(), ok=True, nontrivial=bool(memo))
+    if not memo:
+        return
+    descs = set(memo.values())
+    for q in sorted(scope):
+        g = ctx.prog.functions[q]
+        for node, why in sf.mutations(g):
+            if any(d in why for d in descs):
+                ctx.instance("C07-E8", "%s mutates a memoised composition" % q.split("synrbl.", 1)[-1], g.loc(node), ok=False)
+                ctx.finding("C07-E8", "%s:mutates-memoised-composition" % q.split("synrbl.", 1)[-1], g.loc(node), "%s: every later decompose() of the same SMILES returns the mutated dictionary (%s)" % (why[:120], unparse(node)[:50]))
+
+
 def check(ctx) -> None:
+    rule_e8(ctx)
     rule_e1(ctx)
     rule_e2(ctx)
     rule_e3(ctx)
